@@ -14,6 +14,10 @@ EDITS = {
                       "\ta.count++\n\ta.avg = (a.avg*(a.count-1) + v) / a.count\n", ["C09", "C10", "C11", "C12", "C13", "C18"]),
     "error-text": ("internal/logql/parser_metric_expr.go", "unexpected right scalar %v in a logical operation %s", "scalar %v cannot be the right operand of %s", ["C05", "C13", "C17"]),
     "wider-until": ("internal/dockerlog/dockerlog.go", "until = strconv.FormatInt(t.Unix(), 10)", "until = strconv.FormatInt(t.Unix()+1, 10)", ["C02", "C14", "C16", "C20"]),
+    "merge-tiebreak": ("internal/dockerlog/merge_iter.go", "\treturn a.record.Timestamp < b.record.Timestamp\n",
+                       "\tif a.record.Timestamp == b.record.Timestamp {\n\t\treturn a.iterIdx > b.iterIdx\n\t}\n\treturn a.record.Timestamp < b.record.Timestamp\n", ["C04", "C14", "C15", "C18", "C02"]),
+    "stable-sort": ("internal/logql/logqlengine/eval_streams.go", "slices.SortFunc(stream.Values,", "slices.SortStableFunc(stream.Values,", ["C01", "C08", "C18", "C19"]),
+    "wider-since": ("internal/dockerlog/dockerlog.go", "since = strconv.FormatInt(t.Unix(), 10)", "since = strconv.FormatInt(t.Unix()-1, 10)", ["C02", "C14", "C16", "C09"]),
     "tail-omitted": ("internal/dockerlog/dockerlog.go", "\t\tTail:       \"all\",\n", "", ["C02", "C04", "C14"]),
 }
 def sh(*a, **k):
